@@ -129,7 +129,10 @@ def gen_cases(tier: str, seed: int) -> List[Dict[str, Any]]:
     for i in range(n):
         rng = rng_for(seed, PROPERTY, i)
         cls = CLASSES[i % len(CLASSES)]
-        cases.append({"kind": "fwd", "cls": cls, "opts": gen_options(cls, rng), "training": rng.random() < 0.6,
+        o_ = gen_options(cls, rng)
+        if rng.random() < 0.25:
+            o_["__positional__"] = True
+        cases.append({"kind": "fwd", "cls": cls, "opts": o_, "training": rng.random() < 0.6,
                       "dtype": rng.choice(["float64", "float64", "float64", "float32", "bfloat16"]),
                       "lead": rng.choice([0, 1, 1, 2]), "seed": derive_seed(seed, PROPERTY, "s", i) % (2**31)})
     n_init = 30 if tier == "quick" else 400
@@ -154,7 +157,13 @@ def build(cls: str, opts: Dict[str, Any], uu, torch):
         kw[opts["__tuple_opt__"]] = tuple(kw[opts["__tuple_opt__"]])
     if "residual_scaling" in kw:
         kw["residual_scaling"] = _residual_fn(kw["residual_scaling"])
-    m = getattr(uu, cls)(**kw)
+    if opts.get("__positional__") and not opts.get("__reject__"):
+        # the constructor called with its arguments BY POSITION, in the documented order
+        from ..api_orders import MODULES
+        from ..instruments import positional_call
+        m = positional_call(getattr(uu, cls), (), kw, MODULES[cls])
+    else:
+        m = getattr(uu, cls)(**kw)
     return m.to(torch.float64)
 
 
